@@ -388,3 +388,74 @@ def check_c13(chk, tier):
     chk.rule = _REPORT_RULE + ("For C13 every bag of findings is rendered 1+k times from maps filled in different insertion orders "
                                "(fresh SipHash keys per map) and with permuted file vectors; all renderings must be byte-identical.")
     chk.assumptions = ["two findings maps with the same bag of (pattern, file, lines) entries denote the same set of findings"]
+
+
+# ---------------------------------------------------------------------------
+# C03 / C16 (directory walk)
+# ---------------------------------------------------------------------------
+
+def _dir_check(chk, tier, pid):
+    hb = vlib.build_harness("dev")
+    d = wdir(pid)
+    suffix = "quick" if tier == "quick" else "thorough"
+    r = vlib.tlc("MC_DirWalk", "MC_DirWalk.%s.cfg" % suffix, workers=8, timeout=3000, tag=pid)
+    chk.add_tlc(r)
+    beh = r.records.get("REPLAY", [])
+    if len(beh) < 1000:
+        raise ToolError("MC_DirWalk generated only %d trees" % len(beh))
+    if tier == "thorough":
+        neg = vlib.tlc("MC_DirWalk", "MC_DirWalk.neg.cfg", workers=4, timeout=900, expect_violation=True)
+        if neg.violated != "UnionHolds":
+            raise ToolError("negative control OverwriteOnReturn did not violate UnionHolds")
+        chk.extra["negative_controls"] = ["OverwriteOnReturn (HashMap::extend) violates UnionHolds"]
+        if len(beh) > 60000:
+            step = len(beh) // 60000 + 1
+            beh = beh[::step]
+    bpath = os.path.join(d, "behaviours.ndjson")
+    vlib.write_ndjson(bpath, beh)
+    corpus = prepare_corpus()
+    tpath = os.path.join(d, "trace.ndjson")
+    scratch = vlib.scratch_dir(pid)
+    try:
+        rnd = {"quick": 150, "thorough": 3000}[tier]
+        res = vlib.harness(hb, ["dir-replay", bpath, scratch, "1" if pid == "C16" else "0", corpus, str(rnd), tpath], timeout=3000)
+    finally:
+        shutil.rmtree(scratch, ignore_errors=True)
+    chk.add_harness(res, count_traces=False)
+    recs = vlib.read_ndjson(tpath)
+    chk.extra["listing_order_as_requested"] = sum(1 for x in recs if x.get("order_respected"))
+    chk.extra["trees_run"] = len(recs)
+
+    def describe(rec, why):
+        nested = "nested" if any(e["kind"] == "dir" for e in rec["tree"]["entries"]) else "flat"
+        return ("dirwalk:%s:%s" % (why, nested),
+                "analyze_dir (%s, patterns %s) on tree %s returned %s; per-file results %s (%s)" % (
+                    rec["cat"], rec["pats"], json.dumps(rec["tree"])[:500], json.dumps(rec["result"])[:300],
+                    json.dumps(rec["res"])[:300], why))
+    trace_validate(chk, "TV_DirWalk", tpath, describe, timeout=3000)
+    chk.exhaustive = True
+    return recs
+
+
+@prop("C03")
+def check_c03(chk, tier):
+    _dir_check(chk, tier, "C03")
+    chk.rule = ("TLC runs the explicit-stack directory-walk machine over every tree with <= 2 top-level entries, "
+                "sub-directories of <= 2 files (thorough: more names, one deeper level), every listing order, eligible and "
+                "ineligible names, 3 contents with overlapping pattern sets and several ordered pattern selections, checking "
+                "the exact union; each tree is created on tmpfs (creation history chosen so that the listing order is the "
+                "generated one; the order actually listed is observed and recorded), the real analyze_dir of a rotating "
+                "category is run, per-file results are measured with the per-file API, and TV_DirWalk accepts the run iff the "
+                "returned map is exactly the specified union (as bags). Plus random trees (depth <= 3, <= 25 files from the "
+                "corpus, all patterns). Non-trivial = trees with >= 2 files and >= 1 sub-directory.")
+    chk.assumptions = ["Res is measured with analyze_for_* of the same build, as the statement defines the right-hand side"]
+
+
+@prop("C16")
+def check_c16(chk, tier):
+    _dir_check(chk, tier, "C16")
+    chk.rule = ("As C03, with ineligible files (Foundry tests in any letter case, other extensions, upper-case .SOL, "
+                "extension-less and hidden names) filled with unparseable Solidity, NUL bytes, invalid UTF-8 or nothing; "
+                "every tree is analysed twice by the real analyze_dir -- as is, and as a copy without the ineligible files -- "
+                "and TV_DirWalk accepts iff both results equal the union over the eligible files. A panic is a violation.")
+    chk.assumptions = ["file names that contain '.t.sol' not at the end but end in '.sol' are not generated (the statement does not classify them)"]
